@@ -1,4 +1,5 @@
 CONSTANTS
+  Before = FALSE
   T = 4
 INIT Init
 NEXT Next
